@@ -488,10 +488,9 @@ func applyPush(ctx Context, doc bsonkit.Doc, name, path string, v interface{}) e
 			if int(s) < len(newArr) {
 				newArr = newArr[:int(s)]
 			}
-		default: // s < 0
-			keep := -int(s)
-			if keep < len(newArr) {
-				newArr = newArr[len(newArr)-keep:]
+		default: // s < 0 (not negated as the smallest integer has no negation)
+			if s > -int64(len(newArr)) {
+				newArr = newArr[len(newArr)+int(s):]
 			}
 		}
 	}
